@@ -434,6 +434,14 @@ func (r *Report) replay(prop string, ob *Obligation) replayResult {
 	var imports map[string]string
 	var modelOut string
 	ok := false
+	// A model replay observes a panic or the function's oracle. For a contract clause (post / ghost /
+	// count / refines / frame) of a function without oracle neither is the failed clause: a panic from
+	// an argument the model left nil would "confirm" something else. Those go to the witness.
+	clauseKind := ob.Kind == "post" || ob.Kind == "ghost" || ob.Kind == "count" || ob.Kind == "refines" || ob.Kind == "frame"
+	if clauseKind && ob.fn.fc.Oracle == "" {
+		extra["replay_note"] = "contract clause of a function without an executable oracle: a solver model cannot be checked against the clause on the real code"
+		return r.witness(prop, ob, extra, out)
+	}
 	if ob.Res.status == "sat" {
 		ins, imports, modelOut, ok = r.buildInputs(ob)
 	} else if len(ob.fn.firstIter) > 0 {
@@ -449,6 +457,9 @@ func (r *Report) replay(prop string, ob *Obligation) replayResult {
 	extra["test_source"] = src
 	extra["model"] = modelOut
 	confirmed, testOut := runReplayTest(r.o.repo, src)
+	if clauseKind && !strings.Contains(testOut, "REPLAY-FAIL oracle") {
+		confirmed = false // a panic is not the failed clause
+	}
 	extra["replay_output"] = testOut
 	extra["confirmed_on_real_code"] = confirmed
 	if !confirmed {
